@@ -237,7 +237,7 @@ func ruleP14Model(p *Prog, r *Report) {
 			k, isK := constInt(args[1])
 			coll := rangeElemOf(args[0])
 			only, _ := onlyLoopGuards(find.Block())
-			ok = isU && u.X == ssa.Value(p.global("klog", "HashTagPattern")) && isK && k == -1 && coll != nil && deref(coll) == ssa.Value(tags.Params[0]) && only
+			ok = isU && u.X == ssa.Value(p.global("klog", "HashTagPattern")) && isK && k < 0 && coll != nil && deref(coll) == ssa.Value(tags.Params[0]) && only
 		}
 		r.check(ok, "P14-once", "Summary.Tags:all-matches", p.pos(tags.Pos()), "all matches (n = -1) of the tag pattern in every summary line", "Summary.Tags does not collect all tag matches of all lines")
 		okPut := false
